@@ -93,7 +93,7 @@ Fixpoint build (cx : pctx) (env : list N) (n : N) (u : bool) (t : rt) {struct t}
           let '(ia, aa, _) := build_list (a :: env) (a + 1) false eb in
           (keep (IIfElse n a) l, mkseq ty ic le :: ac ++ mkseq ty ia e :: aa, u)
       | None =>
-          (keep (IIfElse n a) l, mkseq ty ic e :: ac ++ [empty_seq ty], u)
+          (keep (IIfElse n a) l, mkseq ty ic default_loc :: ac ++ [mkseq ty [] e], u)
       end
   end.
 Fixpoint build_list (cx : pctx) (env : list N) (n : N) (u : bool) (l : list rt) : list (instr * N) * list iseq * bool :=
@@ -135,7 +135,7 @@ Fixpoint tbuild (cx : pctx) (env : list N) (n : N) (u : bool) (t : rt) {struct t
           let '(ia, n2, _) := tbl (a :: env) (a + 1) false eb in
           (keep (ItI (T n ty ic le) (T a ty ia e)) l, n2, u)
       | None =>
-          (keep (ItI (T n ty ic e) (T a ty [] default_loc)) l, a + 1, u)
+          (keep (ItI (T n ty ic default_loc) (T a ty [] e)) l, a + 1, u)
       end
   end.
 Fixpoint tbuild_list (cx : pctx) (env : list N) (n : N) (u : bool) (l : list rt) : list (item * N) * N * bool :=
